@@ -285,6 +285,13 @@ def stage2(shapes, s1_meta, s1_model, seed, tier='quick'):
                 cur = img + garbage(rng, 320)
                 add('A', '%s.AL%d' % (cid, n), sid, 0, cur, '(str %s)' % hexs(bytes(0x61 + (j % 26) for j in range(n))),
                     kind='assign', base=cid, repl=cid, cur_size=size, repl_size=1 + n)
+        if t[0] == 'vec' and INTS[t[2]][0] == 1 and t[1][0] in ('int', 'bool') and ssize(t[1]) in (1, 2):
+            for n in (255, 256, 300):      # (the harness instantiates FromArray<_, N> for these N)
+                cur = img + garbage(rng, 320 * ssize(t[1]))
+                items = ''.join(' ' + gen_init(t[1], rng, 3, False) for _ in range(n))
+                for form in ('varr', 'viter'):
+                    add('A', '%s.AL%s%d' % (cid, form[1], n), sid, 0, cur, '(%s%s)' % (form, items),
+                        kind='assign', base=cid, repl=cid, cur_size=size, repl_size=min_size(t) + n * ssize(t[1]))
         # ---- default_in_place
     for sid, t in shapes:
         if not has_default(t):
